@@ -111,4 +111,6 @@ MUTATIONS += [
          old="                    if self.__events[__rec_idx].event is __ev:", new="                    if False:"),
     dict(name="revert_D46_backward_t_eval", props=["C18"], file=DS,
          old="        if t_eval[0] < min(t_span[0], t_span[1]) or t_eval[-1] > max(t_span[0], t_span[1]):", new="        if t_eval[0] < t_span[0] or t_eval[-1] > t_span[1]:"),
+    dict(name="revert_D47_t_eval_past_terminal_event", props=["C18"], file=DS,
+         old="            if ode_system.integration_status == \"Integration terminated upon finding a triggered event.\" and ode_system[-1].t != t:", new="            if False:"),
 ]
